@@ -762,6 +762,11 @@ func consistentSnapshot(s stackSnapshot, nInit int, writerID byte) bool {
 		}
 	}
 	_, hasP := s.refs["p"+string([]byte{'0' + writerID})]
+	_, hasP2 := s.refs["p"+string([]byte{'0' + writerID + 1})] // the writer's second transaction, if any
+	if hasP2 {
+		// the second transaction is visible only together with the first
+		return hasP && s.refs["s"] == writerID+1 && s.logs == nInit+2 && len(s.refs) == nInit+3
+	}
 	if hasP {
 		return s.refs["s"] == writerID && s.logs == nInit+1 && len(s.refs) == nInit+2
 	}
@@ -769,7 +774,7 @@ func consistentSnapshot(s stackSnapshot, nInit int, writerID byte) bool {
 }
 
 // Harness_C10_reader: a handle that reloads (or fails to) while others add and compact keeps reading one committed snapshot.
-// bounds: reader handle R runs reload then a full scan; concurrently one writer handle runs Add, CompactAll, compactRange(0,1), Add followed by a compaction of the top two tables, or compaction of the bottom two tables + Add + compaction of the top two (thorough: two writers, Add and CompactAll); stack of 3 tables; every schedule with <= 3 preemptions (thorough: <= 2 with three processes)
+// bounds: reader handle R runs reload then a full scan; concurrently one writer handle runs Add, CompactAll, compactRange(0,1), Add followed by a compaction of the top two tables, compaction of the bottom two tables + Add + compaction of the top two, or compaction of tables 1..2 followed by two Adds (thorough: two writers, Add and CompactAll); stack of 3 tables; every schedule with <= 3 preemptions (thorough: <= 2 with three processes)
 // covers: done
 func Harness_C10_reader() {
 	cfg := stackCfg(0)
@@ -789,7 +794,7 @@ func Harness_C10_reader() {
 	if r == nil || w == nil {
 		return
 	}
-	wop := VerifChoose(5)
+	wop := VerifChoose(6)
 	if w2 != nil {
 		wop = 0
 	}
@@ -814,6 +819,12 @@ func Harness_C10_reader() {
 			// a new table appears in the list and is compacted away again
 			if addTxn(w, 7, true) == nil && len(w.stack) >= 2 {
 				w.compactRange(len(w.stack)-2, len(w.stack)-1, nil)
+			}
+		case 5:
+			// a compaction above the bottom table, then two additions (the list grows while its middle changes)
+			w.compactRange(1, 2, nil)
+			if addTxn(w, 7, true) == nil {
+				addTxn(w, 8, true)
 			}
 		case 4:
 			// the bottom of the list is replaced (positions of kept tables shift), a table is added and compacted away
@@ -918,7 +929,7 @@ func Harness_C12_api() {
 // ---------- C16: sequential failure paths ----------
 
 // Harness_C16_failures: failed and rejected operations, and Close/Clean on any stack, leave nothing behind and never remove a listed table.
-// bounds: sequential: stack of 0..2 tables; one of: Add whose write function fails, Add with limits below the stack (rejected), stale Add (lock failure), empty Add, Clean, Close, CompactAll, a two-table Addition whose second table is rejected and which is then closed (name checking on and off); then the directory must hold exactly tables.list and the listed tables; also Clean/Close after another process was abandoned in the middle of an Add (leftover temporary and lock files)
+// bounds: sequential: stack of 0..2 tables; one of: Add whose write function fails, Add with limits below the stack (rejected), stale Add (lock failure), empty Add, Clean, Close, CompactAll, a two-table Addition whose second table is rejected and which is then closed (name checking on and off), a compaction whose result is empty; then the directory must hold exactly tables.list and the listed tables; also Clean/Close after another process was abandoned in the middle of an Add (leftover temporary and lock files)
 // covers: done
 func Harness_C16_failures() {
 	cfg := stackCfg(0)
@@ -931,7 +942,25 @@ func Harness_C16_failures() {
 		return
 	}
 	leftover := false
-	switch VerifChoose(9) {
+	switch VerifChoose(10) {
+	case 9:
+		// a compaction whose result is empty (a ref created and then deleted): no table, no temporary file
+		VerifAssert(st.Add(func(w *Writer) error {
+			ui := st.NextUpdateIndex()
+			w.SetLimits(ui, ui)
+			return w.AddRef(&RefRecord{RefName: "gone", UpdateIndex: ui, Value: hashWith(20, 3, 3)})
+		}) == nil, "add-gone")
+		VerifAssert(st.Add(func(w *Writer) error {
+			ui := st.NextUpdateIndex()
+			w.SetLimits(ui, ui)
+			return w.AddRef(&RefRecord{RefName: "gone", UpdateIndex: ui})
+		}) == nil, "delete-gone")
+		if n == 0 {
+			VerifAssert(st.CompactAll(nil) == nil, "empty-compaction")
+		} else {
+			ok, err := st.compactRange(len(st.stack)-2, len(st.stack)-1, nil)
+			VerifAssert(ok && err == nil, "partial-compaction")
+		}
 	case 8:
 		// a multi-table Addition whose second table is rejected, then closed (with and without name checking)
 		cfg2 := cfg
@@ -1024,4 +1053,344 @@ func Harness_C16_failures() {
 func Harness_C05_crash() {
 	op := []int{opAddAuto, opCompactAll, opCompactFirstTwo}[VerifChoose(3)]
 	scenario([]int{op, opOpenAdd}, 3, 0, 1, chkOpen|monList|crashFirst)
+}
+
+// ---------- round-2 additions ----------
+
+// addRangeTxn adds one table whose limits span [lo,hi] with one ref at lo.
+func addRangeTxn(tr *Addition, name string, lo, hi uint64) error {
+	hs := hsOf(tr.stack.cfg)
+	return tr.Add(func(w *Writer) error {
+		w.SetLimits(lo, hi)
+		return w.AddRef(&RefRecord{RefName: name, UpdateIndex: lo, Value: hashWith(hs, 1, 7)})
+	})
+}
+
+// Harness_C05_ranges: tables whose limits span several update indices: a multi-table Addition never commits overlapping ranges.
+// bounds: sequential; stack of 1 table; one Addition with two tables: the first spans [n, n+d1] (d1 in 0..2), the second starts at any of n, n+1, n+d1, n+d1+1 and spans 0..1 more; name checking on and off; the list-integrity monitor runs after every step and the directory must open afterwards
+// covers: done
+func Harness_C05_ranges() {
+	cfg := stackCfg(0)
+	cfg.SkipNameCheck = VerifChoose(2) == 1
+	dir := VerifTempDir()
+	VerifMonitor("list")
+	seedStack(dir, cfg, 1)
+	st := mustOpen(dir, cfg, "open")
+	if st == nil {
+		return
+	}
+	tr, err := st.NewAddition()
+	VerifAssert(err == nil, "newaddition")
+	if err != nil {
+		return
+	}
+	n := tr.nextUpdateIndex
+	d1 := uint64(VerifChoose(3))
+	e1 := addRangeTxn(tr, "x", n, n+d1)
+	VerifAssert(e1 == nil, "first-table")
+	lo2 := []uint64{n, n + 1, n + d1, n + d1 + 1}[VerifChoose(4)]
+	e2 := addRangeTxn(tr, "y", lo2, lo2+uint64(VerifChoose(2)))
+	if lo2 <= n+d1 {
+		VerifAssert(e2 != nil, "overlapping-table-accepted")
+	} else {
+		VerifAssert(e2 == nil, "ordered-table-refused")
+	}
+	cerr := tr.Commit()
+	tr.Close()
+	VerifAssert(cerr == nil, "commit-failed")
+	fin, err := NewStack(dir, cfg)
+	VerifAssert(err == nil, "final-open")
+	if err != nil {
+		return
+	}
+	s := snapshot(fin, "final")
+	_, hasX := s.refs["x"]
+	VerifAssert(hasX, "committed-table-missing")
+	VerifCover("done")
+}
+
+// Harness_C09_prepared: a transaction prepared (limits chosen) before the handle went stale is refused again after the refresh instead of committing below a committed index.
+// bounds: sequential: H1 prepares limits [lo, lo+d] (d in 0..1) from its view of a 2-table stack; another handle adds 1..2 tables; H1 submits the prepared transaction twice
+// covers: done
+func Harness_C09_prepared() {
+	cfg := stackCfg(0)
+	dir := VerifTempDir()
+	seedStack(dir, cfg, 2)
+	VerifAs(1)
+	h1 := mustOpen(dir, cfg, "open-h1")
+	VerifAs(2)
+	h2 := mustOpen(dir, cfg, "open-h2")
+	if h1 == nil || h2 == nil {
+		return
+	}
+	lo := h1.NextUpdateIndex()
+	hi := lo + uint64(VerifChoose(2))
+	k := VerifIntRange(1, 2)
+	for i := 0; i < k; i++ {
+		VerifAssert(addTxn(h2, byte(4+i), true) == nil, "interfering-add")
+	}
+	VerifAs(0)
+	before := dirState(dir, cfg)
+	VerifAs(1)
+	prepared := func(w *Writer) error {
+		w.SetLimits(lo, hi)
+		return w.AddRef(&RefRecord{RefName: "prep", UpdateIndex: lo, Value: hashWith(20, 9, 9)})
+	}
+	VerifAssert(h1.Add(prepared) == ErrLockFailure, "stale-add-must-fail-with-lock-failure")
+	err := h1.Add(prepared)
+	VerifAssert(err == ErrLockFailure, "transaction-below-committed-index-not-refused")
+	VerifAs(0)
+	VerifAssert(dirState(dir, cfg) == before, "stale-write-changed-the-directory")
+	VerifCover("done")
+}
+
+// Harness_C06_second: after a process was abandoned mid-operation another process compacts or adds: nothing committed is lost and the directory stays openable.
+// bounds: process 1 (Add with auto-compaction, CompactAll, compactRange(0,1) or compactRange(1,2)) on a stack of 3 tables is abandoned before any of its filesystem steps; then process 2 runs CompactAll, Add, or Clean; then a fresh handle reads
+// covers: done
+func Harness_C06_second() {
+	cfg := stackCfg(0)
+	dir := VerifTempDir()
+	const n = 3
+	seedStack(dir, cfg, n)
+	VerifAs(1)
+	st := mustOpen(dir, cfg, "open")
+	VerifAs(0)
+	if st == nil {
+		return
+	}
+	op := VerifChoose(4)
+	VerifSpawnCrashable(func() {
+		switch op {
+		case 0:
+			st.disableAutoCompact = false
+			addTxn(st, 7, true)
+		case 1:
+			st.CompactAll(nil)
+		case 2:
+			st.compactRange(0, 1, nil)
+		case 3:
+			st.compactRange(1, 2, nil) // leaves locks on the upper tables only
+		}
+	})
+	VerifRun(0)
+	VerifAs(2)
+	p2 := mustOpen(dir, cfg, "reopen-after-crash")
+	if p2 == nil {
+		return
+	}
+	var e2 error
+	added := false
+	switch VerifChoose(3) {
+	case 0:
+		e2 = p2.CompactAll(nil)
+	case 1:
+		e2 = addTxn(p2, 8, true)
+		added = e2 == nil
+	case 2:
+		e2 = p2.Clean()
+	}
+	VerifAssert(isLockFailure(e2), "second-process-fails-otherwise")
+	VerifAs(0)
+	fin, err := NewStack(dir, cfg)
+	VerifAssert(err == nil, "reopen-after-second-process")
+	if err != nil {
+		return
+	}
+	got := snapshot(fin, "after-second-process")
+	for i := 0; i < n; i++ {
+		v, ok := got.refs["p"+string([]byte{'0' + byte(i)})]
+		VerifAssert(ok && v == byte(i), "committed-ref-lost")
+	}
+	if added {
+		VerifAssert(got.refs["p8"] == 8 && got.refs["s"] == 8, "second-process-add-lost")
+	}
+	VerifCover("done")
+}
+
+// stackUniverse builds a stack of k tables through the real API; table t holds ref "a" as {absent,value,deletion} and ref "b" as {absent,value}, a reflog entry for a@t+1 or a reflog deletion of a@t (choices), plus ref "z" in the last table.
+func stackUniverse(st *Stack, k int) {
+	hs := hsOf(st.cfg)
+	for t := 0; t < k; t++ {
+		ca, cb, cl := VerifChoose(3), VerifChoose(2), 0
+		if t > 0 {
+			cl = VerifChoose(3) // reflog entry / reflog deletion (of the entry below) in the upper tables
+		} else {
+			cl = VerifChoose(2)
+		}
+		last := t == k-1
+		if ca == 0 && cb == 0 && cl == 0 && !last {
+			cb = 1 // a stack never holds an empty table
+		}
+		tt := t
+		VerifAssert(st.Add(func(w *Writer) error {
+			ui := st.NextUpdateIndex()
+			w.SetLimits(ui, ui)
+			switch ca {
+			case 1:
+				if err := w.AddRef(&RefRecord{RefName: "a", UpdateIndex: ui, Value: hashWith(hs, byte(tt), 1)}); err != nil {
+					return err
+				}
+			case 2:
+				if err := w.AddRef(&RefRecord{RefName: "a", UpdateIndex: ui}); err != nil {
+					return err
+				}
+			}
+			if cb == 1 {
+				if err := w.AddRef(&RefRecord{RefName: "b", UpdateIndex: ui, Target: "a"}); err != nil {
+					return err
+				}
+			}
+			if last {
+				if err := w.AddRef(&RefRecord{RefName: "z", UpdateIndex: ui, Value: hashWith(hs, 9, 9)}); err != nil {
+					return err
+				}
+			}
+			switch cl {
+			case 1:
+				return w.AddLog(&LogRecord{RefName: "a", UpdateIndex: ui, Time: uint64(10 + tt), New: hashWith(hs, byte(tt), 1), Old: hashWith(hs, 0, 0), Message: "m\n"})
+			case 2:
+				if ui > 1 {
+					return w.AddLog(&LogRecord{RefName: "a", UpdateIndex: ui - 1})
+				}
+			}
+			return nil
+		}) == nil, "universe-add")
+	}
+}
+
+func fullDump(dir string, cfg Config, label string) string {
+	st, err := NewStack(dir, cfg)
+	VerifAssert(err == nil, label+"-open")
+	if err != nil {
+		return "unopenable"
+	}
+	defer st.Close()
+	m := st.Merged()
+	s := ""
+	for _, r := range scanAllRefs(m, label+"-scan") {
+		s += r.RefName + "=" + string(r.Value) + "/" + string(r.TargetValue) + "/" + r.Target + ";"
+	}
+	s += "|"
+	for _, l := range scanAllLogs(m, label+"-scan") {
+		s += l.RefName + "@" + string([]byte{'0' + byte(l.UpdateIndex)}) + ":" + string(l.New) + l.Message + ";"
+	}
+	return s
+}
+
+// Harness_C07_stack: compaction through the real compactRange (list rewrite included) leaves the view unchanged.
+// bounds: sequential on the (modelled) filesystem: stacks of 3 tables over refs a (absent/value/deletion), b (absent/symref), z (in the top table) and reflog entries / reflog deletions for a; every range [first,last]; the full ref and reflog dump of a fresh handle is compared before and after
+// covers: done
+func Harness_C07_stack() {
+	cfg := stackCfg(0)
+	dir := VerifTempDir()
+	st := mustOpen(dir, cfg, "open")
+	if st == nil {
+		return
+	}
+	stackUniverse(st, 3)
+	k := len(st.stack) // an empty transaction adds no table
+	if k == 0 {
+		return
+	}
+	before := fullDump(dir, cfg, "before")
+	first := VerifIntRange(0, k-1)
+	last := VerifIntRange(first, k-1)
+	ok, err := st.compactRange(first, last, nil)
+	VerifAssert(ok && err == nil, "compaction-failed")
+	after := fullDump(dir, cfg, "after")
+	VerifAssert(before == after, "compaction-changed-the-view")
+	VerifCover("done")
+}
+
+// Harness_C07_concurrent: two compactions of disjoint ranges racing, with a table above both: the view is unchanged whichever commits first.
+// bounds: 2 processes on a stack of 5 tables: compactRange(2,3) and compactRange(0,1); every schedule with <= 2 preemptions
+// covers: done
+func Harness_C07_concurrent() {
+	cfg := stackCfg(0)
+	dir := VerifTempDir()
+	seedStack(dir, cfg, 5)
+	VerifAs(1)
+	h1 := mustOpen(dir, cfg, "open")
+	VerifAs(2)
+	h2 := mustOpen(dir, cfg, "open")
+	VerifAs(0)
+	if h1 == nil || h2 == nil {
+		return
+	}
+	VerifSpawn(func() { h1.compactRange(2, 3, nil) })
+	VerifSpawn(func() { h2.compactRange(0, 1, nil) })
+	VerifRun(2)
+	fin, err := NewStack(dir, cfg)
+	VerifAssert(err == nil, "final-open")
+	if err != nil {
+		return
+	}
+	got := snapshot(fin, "final")
+	VerifAssert(len(got.refs) == 6 && got.logs == 5 && got.refs["s"] == 4, "compaction-changed-the-view")
+	for i := 0; i < 5; i++ {
+		v, ok := got.refs["p"+string([]byte{'0' + byte(i)})]
+		VerifAssert(ok && v == byte(i), "compaction-changed-the-view")
+	}
+	VerifCover("done")
+}
+
+// Harness_C13_stack: reflog expiry through CompactAll on the (modelled) filesystem, on multi-table and already compacted stacks, and again with the same configuration value after more tables were added.
+// bounds: sequential: 3 additions (reflog entries for s at update indices 1..3, times 1..3), optionally compacted to one table first; CompactAll(cfg) with Time in {0,2}, MinUpdateIndex in {0,1,2}, MaxUpdateIndex in {0,2,3}; then one more addition and CompactAll with the same cfg pointer; the surviving entries are compared with the filter model after each run and the refs must not change
+// covers: done
+func Harness_C13_stack() {
+	cfg := stackCfg(0)
+	dir := VerifTempDir()
+	st := mustOpen(dir, cfg, "open")
+	if st == nil {
+		return
+	}
+	for i := 0; i < 3; i++ {
+		VerifAssert(addTxn(st, byte(i+1), true) == nil, "add")
+	}
+	if VerifChoose(2) == 1 {
+		VerifAssert(st.CompactAll(nil) == nil, "pre-compaction")
+	}
+	exp := &LogExpirationConfig{Time: uint64([]int{0, 2}[VerifChoose(2)]), MinUpdateIndex: uint64(VerifChoose(3)), MaxUpdateIndex: uint64([]int{0, 2, 3}[VerifChoose(3)])}
+	orig := *exp
+	keep := func(idx, tm uint64) bool {
+		return !(orig.Time > 0 && tm < orig.Time) && !(orig.MaxUpdateIndex != 0 && idx > orig.MaxUpdateIndex) && !(orig.MinUpdateIndex != 0 && idx < orig.MinUpdateIndex)
+	}
+	VerifAssert(st.CompactAll(exp) == nil, "expiry-compaction")
+	want := 0
+	for i := uint64(1); i <= 3; i++ {
+		if keep(i, i) {
+			want++
+		}
+	}
+	fin := mustOpen(dir, cfg, "reopen")
+	if fin == nil {
+		return
+	}
+	got := snapshot(fin, "after-expiry")
+	VerifAssert(got.logs == want, "expiry-wrong-entries")
+	VerifAssert(len(got.refs) == 4 && got.refs["s"] == 3, "expiry-altered-refs")
+	// second run with the same configuration value
+	VerifAssert(addTxn(st, 4, true) == nil, "add-after-expiry")
+	VerifAssert(st.CompactAll(exp) == nil, "second-expiry-compaction")
+	want2 := 0
+	for i := uint64(1); i <= 4; i++ {
+		if keep(i, i) {
+			want2++
+		}
+	}
+	fin2 := mustOpen(dir, cfg, "reopen2")
+	if fin2 == nil {
+		return
+	}
+	got2 := snapshot(fin2, "after-second-expiry")
+	VerifAssert(got2.logs == want2, "second-expiry-wrong-entries")
+	VerifAssert(len(got2.refs) == 5 && got2.refs["s"] == 4, "expiry-altered-refs")
+	VerifCover("done")
+}
+
+// Harness_C05_triples: three processes (a lock deleted by a non-owner lets a commit rename an empty or foreign lock file onto tables.list).
+// bounds: 3 processes: CompactAll, open+Add, open+Add on a stack of 2 tables; every schedule with <= 3 preemptions
+// covers: done
+func Harness_C05_triples() {
+	scenario([]int{opCompactAll, opOpenAdd, opOpenAdd}, 2, 0, 3, chkOpen|monList)
 }
